@@ -97,6 +97,36 @@ def case_singlet(log, order, method, shape="complex"):
     log.path_stats(pm)
 
 
+def case_uvec(log, order, is_exact):
+    """building blocks of the perturbative / truncated kernels: with v.gamma_k = 0 every R_k and every U_k (k>=1) is annihilated by v,
+    hence v.U(a1) E0 U(a0)^-1 = v for any number of iterations (used for the orders whose full kernel is too deep for the quick tier)."""
+    ns, sg, ei, as4, ad = kernel_modules()
+    log.encode(sg.r_vec, sg.u_vec)
+    rp = (MOD, "replay_singlet", {"order": order, "method": "PERTURBATIVE_EXACT" if is_exact else "PERTURBATIVE_EXPANDED"})
+
+    def run():
+        bet, bs, _ = sym_rge(order) if order < 4 else sym_rge(3)
+        if order == 4:
+            bet = bet + [SR.var("b3") * bet[0]]
+        gs = realnp.array([constrained("g%d" % k, 2, (1, 1)) for k in range(order)], dtype=object)
+        M = order + 1
+        r = sg.r_vec(gs, bet, (M, 0), (order, 0), is_exact)
+        u = sg.u_vec(r, (M, 0))
+        key = "singlet.perturbative:%d:uvec-sumrule" % order
+        for k in range(M):
+            for j in range(2):
+                vd = prove_zero(Cx.lift(r[k][0, j] + r[k][1, j]), "v.R_%d column %d == 0 (order %d, exact fill=%s)" % (k, j, order, is_exact))
+                log.decide(vd, key=key, replay=rp, sampler=_sampler)
+                tgt = 1 if k == 0 else 0
+                vd = prove_zero(Cx.lift(u[k][0, j] + u[k][1, j]) - tgt, "v.U_%d column %d == %d (order %d, exact fill=%s)" % (k, j, tgt, order, is_exact), timeout_ms=60000)
+                log.decide(vd, key=key, replay=rp, sampler=_sampler)
+        log.twin("domain")
+        log.collect_ctx()
+
+    _r, pm = explore(run)
+    log.path_stats(pm)
+
+
 def case_qed_iterate(log, order):
     sq = sym_module("eko.kernels.singlet_qed")
     from eko.kernels import EvoMethods
@@ -340,7 +370,12 @@ def main():
         for mth in METHODS:
             if o == 1 and mth != "ITERATE_EXACT":
                 continue
+            if not thorough and o >= 3 and mth.startswith("PERTURBATIVE"):
+                continue  # ~10 min each: thorough tier; the quick tier decides the U_k / R_k building blocks instead (case_uvec)
             chk.case("singlet.%s.o%d" % (mth, o), case_singlet, order=o, method=mth)
+    for o in (3, 4):
+        for ex in (True, False):
+            chk.case("singlet.uvec.o%d.%s" % (o, "exact" if ex else "expanded"), case_uvec, order=o, is_exact=ex)
     for od in ([(1, 1), (2, 1)] if not thorough else [(1, 1), (2, 1), (2, 2), (3, 2)]):
         chk.case("qed.iterate.o%d%d" % od, case_qed_iterate, order=od)
     for nf in ((3, 4, 5, 6) if thorough else (4,)):
